@@ -173,7 +173,48 @@ func lipWhat(h *pairHit) string {
 		math.Abs(h.fp-h.fq), dist(h.p, h.q), h.ratio, h.fp, h.fq)
 }
 
+// replayT is the part of a replay file (written by the driver) this harness reads back
+type replayT struct {
+	Failing []struct {
+		Key   string `json:"key"`
+		Input struct {
+			Seed uint64 `json:"seed"`
+			Tier string `json:"tier"`
+		} `json:"input"`
+	} `json:"failing_inputs"`
+}
+
 func check(c *Ctx, r *Report) error {
+	// --replay: re-run with the recorded seed and tier and report only the recorded inputs
+	var only map[string]bool
+	if c.Replay != "" {
+		var rp replayT
+		b, err := os.ReadFile(c.Replay)
+		if err != nil {
+			return err
+		}
+		if err := json.Unmarshal(b, &rp); err != nil {
+			return err
+		}
+		only = map[string]bool{}
+		for _, f := range rp.Failing {
+			only[f.Key] = true
+			if f.Input.Seed != 0 {
+				c.Seed, r.Seed = f.Input.Seed, f.Input.Seed
+			}
+			if f.Input.Tier != "" {
+				c.Tier, r.Tier = f.Input.Tier, f.Input.Tier
+			}
+		}
+	}
+	inCorpus := true // the corpus (known findings, regression inputs) is always replayed and reported
+	viol := func(key, what string, input map[string]interface{}) {
+		if only != nil && !only[key] && !inCorpus {
+			return
+		}
+		input["seed"], input["tier"] = c.Seed, c.Tier
+		r.Violate(key, what, input)
+	}
 	rng := NewRng(mixSeed(c.Seed))
 	cases := &Cases{Kind: "prim", Imports: imp, Type: "case", Fn: "mismatches", InfoFn: "inexact", PerShard: 250}
 	id := 0
@@ -200,7 +241,7 @@ func check(c *Ctx, r *Report) error {
 		regions[p.kind+"/"+q.stratum]++
 		v := judge(s, d2, p.round(), g, scale, exact)
 		if !v.ok {
-			r.Violate(key, v.what, map[string]interface{}{"primitive": p.kind, "params": p.a, "point": []float64{q.x, q.y, q.z}, "value": g, "exact_regime": exact})
+			viol(key, v.what, map[string]interface{}{"primitive": p.kind, "params": p.a, "point": []float64{q.x, q.y, q.z}, "value": g, "exact_regime": exact})
 		}
 		if rhoExact {
 			id++
@@ -251,7 +292,7 @@ func check(c *Ctx, r *Report) error {
 		r.Case("corpus/pair/"+e.Witness, key, true)
 		ex, ratio, fp, fq := fd.excess(e.P, e.Q, fd.ext())
 		if ex > 0 {
-			r.Violate(key, lipWhat(&pairHit{e.P, e.Q, fp, fq, ratio, ex}), map[string]interface{}{"witness": e.Witness, "tree": fd.desc, "p": e.P, "q": e.Q})
+			viol(key, lipWhat(&pairHit{e.P, e.Q, fp, fq, ratio, ex}), map[string]interface{}{"witness": e.Witness, "tree": fd.desc, "p": e.P, "q": e.Q})
 		}
 	}
 	for _, e := range cp.Offset {
@@ -273,7 +314,7 @@ func check(c *Ctx, r *Report) error {
 			}
 		}
 		if nearest > math.Abs(fc)*(1+1e-6)+1e-9 {
-			r.Violate(key, fmt.Sprintf("not the Euclidean distance: Evaluate = %.17g at %v but no point of the surface within %g (the nearest sign change found within radius %g is at %g)",
+			viol(key, fmt.Sprintf("not the Euclidean distance: Evaluate = %.17g at %v but no point of the surface within %g (the nearest sign change found within radius %g is at %g)",
 				fc, e.C, math.Abs(fc)*1.000001, e.Radius, nearest), map[string]interface{}{"witness": e.Witness, "tree": fd.desc, "c": e.C})
 		}
 	}
@@ -283,10 +324,11 @@ func check(c *Ctx, r *Report) error {
 		hit, _ := searchLip(rng, fd, TierN(c.Tier, 6000, 60000, 20000))
 		r.Case("lip/rotatecopy-symmetric", "lip:"+fd.desc, true)
 		if hit != nil {
-			r.Violate(lipKey(fd, hit.p, hit.q), lipWhat(hit), map[string]interface{}{"tree": fd.desc, "p": hit.p, "q": hit.q})
+			viol(lipKey(fd, hit.p, hit.q), lipWhat(hit), map[string]interface{}{"tree": fd.desc, "p": hit.p, "q": hit.q})
 		}
 	}
 
+	inCorpus = false
 	// ---- (a) primitives
 	nprims := TierN(c.Tier, 14, 120, 40)
 	npts := TierN(c.Tier, 34, 64, 48)
@@ -329,7 +371,7 @@ func check(c *Ctx, r *Report) error {
 		}
 		r.Case(stratum, fmt.Sprintf("lip%d:%s", fd.dim, fd.desc), len(cl.Ctors) >= 2)
 		if hit != nil {
-			r.Violate(lipKey(fd, hit.p, hit.q), lipWhat(hit), map[string]interface{}{"tree": fd.desc, "coq": coq, "p": hit.p, "q": hit.q})
+			viol(lipKey(fd, hit.p, hit.q), lipWhat(hit), map[string]interface{}{"tree": fd.desc, "coq": coq, "p": hit.p, "q": hit.q})
 		}
 	}
 	for k := 0; k < n3; k++ {
